@@ -3,5 +3,7 @@ import MiniMoka.Basic
 import MiniMoka.Sketch
 import MiniMoka.Types
 import MiniMoka.Unsync
+import MiniMoka.Sync
+import MiniMoka.Gen.Constants
 import MiniMoka.Wire
 import MiniMoka.Driver
